@@ -250,4 +250,33 @@ def listText (lead : Bytes) (items : List (Bytes × Bytes)) (last : Option Bytes
 /-- an item: non-empty, no white space, no NUL, no closing brace -/
 def isItem (it : Bytes) : Bool := !it.isEmpty && it.all fun b => !isSpace b && b != 0 && b != 125
 
+/-! ## documented lookups on a document -/
+
+/-- the value the documentation assigns to `key` of `sec`: the last assignment in the (first) section of
+that name that has any assignment at all -/
+def docFind (d : Doc) (sec key : Bytes) : Option Bytes :=
+  match (meaning d).find? (·.1 == sec) with
+  | none => none
+  | some (_, kvs) => (kvs.find? (·.1 == key)).map (·.2)
+
+/-- number of distinct keys of a section (0 when the section is not reported) -/
+def docKeyCount (d : Doc) (sec : Bytes) : Nat :=
+  match (meaning d).find? (·.1 == sec) with
+  | none => 0
+  | some (_, kvs) => kvs.length
+
+/-! ## `pstring.h`: "Removes trailing and leading whitespaces", "Tokenizes a string by given delimiters" -/
+
+/-- the string without its leading and trailing white space -/
+def trim (s : Bytes) : Bytes := ((s.dropWhile isSpace).reverse.dropWhile isSpace).reverse
+
+/-- the maximal non-empty runs of bytes that are no delimiters, in order -/
+def tokensAux (isD : UInt8 → Bool) : Bytes → Bytes → List Bytes
+  | [], cur => if cur.isEmpty then [] else [cur.reverse]
+  | b :: r, cur =>
+    if isD b then (if cur.isEmpty then tokensAux isD r [] else cur.reverse :: tokensAux isD r [])
+    else tokensAux isD r (b :: cur)
+
+def tokens (delim s : Bytes) : List Bytes := tokensAux delim.contains s []
+
 end PV.IniSpec
